@@ -247,6 +247,26 @@ Example c03_stale_rename_inbox_refuted :
   spec_b (fst (rename_inbox_sched_stale s (S_ "R1") 200 c085_env)) = false.
 Proof. exact stale_rename_inbox_refuted. Qed.
 
+(** regression (before raven 8552cfb): RENAME INBOX x overwrote the target's counter
+    with INBOX's; an APPEND to the just created target in the window (INBOX empty)
+    left it with UID 1 and UIDNEXT 1.  With MAX the same schedule satisfies the spec. *)
+Example c03_overwrite_rename_inbox_refuted :
+  clean (init 100) [] = true /\
+  spec_b (fst (rename_inbox_sched (init 100) (S_ "R1") 200 c03w_env)) = true /\
+  spec_b (fst (rename_inbox_sched_overwrite (init 100) (S_ "R1") 200 c03w_env)) = false.
+Proof. exact overwrite_rename_inbox_refuted. Qed.
+
+(** OPEN FINDING rename_inbox_target_uid_reused_in_window: the all-schedules
+    statement for RENAME INBOX is FALSE on the current tree.  The target row is
+    created before the moving transaction; a message added to it AND expunged
+    again inside that window leaves no row for UNIQUE to refuse, and INBOX's
+    message takes the same UID under the target's (name, UIDVALIDITY). *)
+Example c03_rename_inbox_window_refuted :
+  let s := run [OAppend INBOX []] (init 100) in
+  spec_b (fst (rename_inbox_sched s (S_ "R1") 200 [])) = true /\
+  spec_b (fst (rename_inbox_sched s (S_ "R1") 200 c03w2_env)) = false.
+Proof. exact window_expunged_uid_reused. Qed.
+
 (** non-vacuity: a clean history that uses every kind of operation (UID COPY,
     COPY, a Junk move, RENAME INBOX with a message in it, DELETE + CREATE of the
     same name in different seconds), and the spec evaluated on it *)
